@@ -36,6 +36,8 @@ def run(R, tier, seed, driver_ok):
         if rep % 4 == 3:
             X = X * float(10.0 ** rng.choice([-3, 3]))          # the same data in other units
         quads = X[zoo.quads_from(X, y, rng, n=int(rng.randint(4, 20)))]
+        if rep % 5 == 4:
+            quads = quads[rng.choice(len(quads), size=int(rng.randint(1, 4)), replace=False)]   # one to three comparisons
         nq = len(quads)
         prior_kind = ['identity', 'covariance', 'random', 'array'][rep % 4]
         B = rng.randn(d, d)
@@ -76,6 +78,9 @@ def run(R, tier, seed, driver_ok):
         finally:
             ml._initialize_metric_mahalanobis = orig
         M0, Pinv = store['M0'], store['Pinv']
+        want0, cond0 = zoo.documented_prior(prior_kind, quads, prior if prior_kind == 'array' else None)
+        if want0 is not None and np.abs(M0 - want0).max() > max(1e-9, 1e3 * 2.3e-16 * cond0) * max(np.abs(want0).max(), 1e-300):
+            R.violation(f'LSML/prior-{prior_kind}-not-as-documented', f'the prior LSML starts from differs from the documented {prior_kind} prior of these quadruplets (max diff {np.abs(M0 - want0).max():.3g})', case)
         M = est.get_mahalanobis_matrix()
         R.case(('c12', quads.tobytes().hex()[:64], prior_kind, wmode, tol, max_iter, feasible), True,
                sample={'d': d, 'n_quadruplets': nq, 'prior': prior_kind, 'weights': wmode, 'tol': tol, 'max_iter': max_iter, 'n_iter_': int(est.n_iter_)},
